@@ -73,7 +73,9 @@ Step ==
        [] e.k = "final" ->
             /\ err' = IF T.n > 0 /\ (~NoStructChange(e) \/ e.pd # T.pdepth) THEN "final.struct-change" ELSE "ok"
             /\ T' = T /\ ph' = ph
-       [] e.k = "script" -> err' = "replay.script" /\ T' = T /\ ph' = ph
+       \* the class consumed the scripted random draws differently from the behaviour: not an error by itself (the boxes it
+       \* produced have been compared with the behaviour's cuts, mk.replay-mismatch); counted in the evidence
+       [] e.k = "script" -> err' = "ok" /\ T' = T /\ ph' = ph
        [] e.k = "diverged" -> err' = "mk.replay-mismatch" /\ T' = T /\ ph' = ph
        [] e.k = "ctor" -> err' = "ctor.raises" /\ T' = T /\ ph' = ph
        [] e.k = "end" ->
